@@ -176,6 +176,8 @@ OPS = {
     'make_boost_off': lambda: segno.make('boost', boost_error=False, error='L'),
     'seq_version': lambda: segno.make_sequence(SEQ_TEXT, version=1, error='M'),
     'seq_count': lambda: segno.make_sequence(SEQ_TEXT, symbol_count=3),
+    'seq_count_200': lambda: segno.make_sequence('Structured Append 0123456789 ' * 7, symbol_count=2),
+    'seq_count_tiny': lambda: segno.make_sequence('ab12', symbol_count=2),
     'save_png': lambda: _save(_shared(), 'png', scale=2),
     'save_png_palette': lambda: _save(_shared(), 'png', dark=DARK, light=LIGHT),
     'save_png_transparent': lambda: _save(_shared(), 'png', light=None, border=1),
